@@ -21,19 +21,26 @@ func MapToCurve2(u fptower.E4) G2Affine {
 	z.B0.A1.SetString("0")
 	z.B1.A0.SetOne()
 	z.B1.A1.SetString("0")
-	c1.B0.A0.SetOne()
-	c1.B0.A1.SetOne()
-	c1.B1.A0.SetString("2")
-	c1.B1.A1.SetString("6108483493771298205388567675447533806912846525679192205394505462405828322019437284165171866703")
+	// c1 = g(Z) = Z³ + b'
+	c1.B0.A0.SetString("1")
+	c1.B0.A1.SetString("3")
+	c1.B1.A0.SetString("3")
+	c1.B1.A1.SetString("6108483493771298205388567675447533806912846525679192205394505462405828322019437284165171866704")
+	// c2 = -Z/2
 	c2.B0.A0.SetString("19852571354756719167512844945204484872466751208457374667532142752818942046563171173536808566784")
 	c2.B0.A1.SetString("0")
 	c2.B1.A0.SetString("19852571354756719167512844945204484872466751208457374667532142752818942046563171173536808566784")
 	c2.B1.A1.SetString("0")
-
-	c3.B0.A0.SetString("14181901575451930365156064137229663961789100070994427419777314377609453770227083005360995137239")
-	c3.B0.A1.SetString("38867788984497805540592493226397363174027239449768861944710564870925669104016488974244557160817")
-	c3.B1.A0.SetString("7207770078990411004130237352587865513334954456592365258287987262730492706089979112564450405406")
-	c3.B1.A1.SetString("11314632945591044023254019576500732396578160594635551958097682961894415495755352199773541527735")
+	// c3 = sqrt(-3Z²g(Z))
+	c3.B0.A0.SetString("12779274066061795445951014901822010963312159916461069736995856210425268303147784337334696727134")
+	c3.B0.A1.SetString("28608048227977563203737664552213232556760480581940270355343359513821339153900629196805932750185")
+	c3.B1.A0.SetString("5883268780661836319012406859840284429926736025683875266121421727122103374793036415335358390353")
+	c3.B1.A1.SetString("29656456807225772361375688977165082376507360144026960412082710924559556929318730769622803762391")
+	// c4 = -4g(Z)/(3Z²)
+	c4.B0.A0.SetString("16176169252023993395751206992388839525713649132817120099470634835630249074977398733992955128490")
+	c4.B0.A1.SetString("11764486728744722469637241449010065109609926642048814617796825335003817509074471806540331002539")
+	c4.B1.A0.SetString("5882243364372361234818620724505032554804963321024407308898412667501908754537235903270165501268")
+	c4.B1.A1.SetString("15384328799127713998756392664090085143336057916525372961734310053466530588789693900860432849474")
 
 	var tv1, tv2, tv3, tv4, one, x1, gx1, x2, gx2, x3, x, gx, y fptower.E4
 	one.SetOne()
